@@ -293,7 +293,8 @@ def check(prog: Program, tier: str) -> Result:
     _r16_15(prog, res)
     _r16_16(prog, res)
     _r16_17(prog, res)
-    res.floors.update({"R16.1": 60, "R16.2": 25, "R16.3": 10, "R16.4": 2, "R16.5": 1, "R16.6": 3, "R16.7": 8, "R16.8": 5, "R16.9": 2, "R16.10": 4, "R16.11": 1, "R16.12": 1, "R16.13": 1, "R16.15": 2, "R16.16": 3, "R16.17": 1})
+    _r16_18(prog, res)
+    res.floors.update({"R16.1": 60, "R16.2": 25, "R16.3": 10, "R16.4": 2, "R16.5": 1, "R16.6": 3, "R16.7": 8, "R16.8": 5, "R16.9": 2, "R16.10": 4, "R16.11": 1, "R16.12": 1, "R16.13": 1, "R16.15": 2, "R16.16": 3, "R16.17": 1, "R16.18": 4})
     res.analysed.update({"ast_kinds": len(kinds)})
     return res
 
@@ -860,6 +861,78 @@ def _r16_17(prog: Program, res: Result) -> None:
 
 
 
+# ------------------------------------------------------------------------------------------------ R16.18
+HIGHER_ORDER_REF = {      # builtins / stdlib functions that CALL an argument, and where that argument sits (reference: library documentation)
+    "map": "first", "filter": "first", "reduce": "first", "filterfalse": "first", "starmap": "first", "takewhile": "first", "dropwhile": "first",
+    "sorted": "key", "max": "key", "min": "key",
+}
+
+
+def _r16_18(prog: Program, res: Result) -> None:
+    """`calls nothing user-defined or unknown`: map(f, xs), filter(f, xs), sorted(xs, key=f), max(xs, key=f) are calls of f.
+    The whitelist of safe callables contains these higher-order functions, and a function NAME passed as an argument is a
+    plain load.  For every member of the reference table that the whitelist contains, the call branch of the side-effect
+    analysis consults a helper that hands back the function-valued argument of that callee (first positional argument /
+    the `key` keyword), and answers `has a side effect` from the verdict on it before the generic answer."""
+    from ..model import ConstEval
+    try:
+        safe = set(prog.const("constants", "SAFE_CALLABLES"))
+    except Unresolvable as error:
+        res.undecided("R16.18", "pyrefact/constants.py:0", "constants.SAFE_CALLABLES", "whitelist", str(error))
+        return
+    hs = prog.funcs.get(("core", "has_side_effect"))
+    if hs is None:
+        raise AnalysisError("anchor core.has_side_effect not found")
+    # helpers called from has_side_effect that classify a callee by its NAME against tuples of strings
+    slots: Dict[str, str] = {}
+    consulted = None
+    for c in prog.calls_in(hs):
+        r = prog.resolve_call(c.func, hs.mod, hs)
+        if not (r and r[0] == "fn") or r[1].key == hs.key:
+            continue
+        g = r[1]
+        local_tuples: Dict[str, List[str]] = {}
+        for st in g.node.body:
+            if isinstance(st, (ast.Assign, ast.AugAssign)) and isinstance(st.value, ast.Tuple) and all(isinstance(e, ast.Constant) and isinstance(e.value, str) for e in st.value.elts):
+                tgt = st.targets[0] if isinstance(st, ast.Assign) else st.target
+                if isinstance(tgt, ast.Name):
+                    local_tuples.setdefault(tgt.id, []).extend(e.value for e in st.value.elts)
+        for i in walk_own(g.node):
+            if not (isinstance(i, ast.If) and i.body and isinstance(i.body[-1], ast.Return) and i.body[-1].value is not None):
+                continue
+            names: List[str] = []
+            for cmp_ in ast.walk(i.test):
+                if isinstance(cmp_, ast.Compare) and isinstance(cmp_.ops[0], ast.In):
+                    coll = cmp_.comparators[0]
+                    if isinstance(coll, ast.Tuple):
+                        names += [e.value for e in coll.elts if isinstance(e, ast.Constant) and isinstance(e.value, str)]
+                    elif isinstance(coll, ast.Name):
+                        names += local_tuples.get(coll.id, [])
+            ret = norm(i.body[-1].value)
+            slot = "first" if (".args[:1]" in ret or ".args[0]" in ret) else ("key" if (".keywords" in ret and "'key'" in ret.replace('"', "'")) else None)
+            if names and slot:
+                consulted = g
+                for nm in names:
+                    slots[nm] = slot
+    # the verdict on those arguments leads to `return True` before the generic answer
+    decisive = False
+    if consulted is not None:
+        for i in walk_own(hs.node):
+            if isinstance(i, ast.If) and consulted.node.name in norm(i.test) and i.body and isinstance(i.body[-1], ast.Return) \
+                    and isinstance(i.body[-1].value, ast.Constant) and i.body[-1].value.value is True:
+                decisive = True
+    for name, slot in sorted(HIGHER_ORDER_REF.items()):
+        if name not in safe:
+            res.ok("R16.18", hs.loc(), hs.fq, f"{name}(..) # calls its {slot} argument", "not in the whitelist of safe callables", trivial=True)
+            continue
+        ok = decisive and slots.get(name) == slot
+        res.decide(ok, "R16.18", hs.loc(), hs.fq, f"{name}(..) # calls its {slot} argument",
+                   f"the function-valued argument is judged first ({consulted.node.name})" if ok else
+                   f"`{name}` is a safe callable and a function name passed to it is a plain load: `list(map(log, xs))` / `sorted(xs, key=log)` run the user's `log` "
+                   "and are deleted as pointless")
+
+
+
 def _r16_16(prog: Program, res: Result) -> None:
     """Whose break is it?  A loop that is certainly entered is 'blocking' (nothing after it runs) only if nothing inside can leave
     it normally.  A `break` of THIS loop can stand at any depth of if / try / with / match - and in the ELSE clause of an inner
@@ -1177,6 +1250,9 @@ def _positive(test: ast.AST) -> bool:
 from ..selftest import Variant  # noqa: E402
 
 VARIANTS: List[Variant] = [
+    Variant("function-arguments-of-map-not-judged", "FIRE", "core", "        if any(\n            _may_call_something_unsafe(function, safe_callable_whitelist)\n            for function in _functions_called_by(node)\n        ):\n            return True\n\n", "", "R16.18"),
+    Variant("key-functions-forgotten", "FIRE", "core", "    if name in (\"sorted\", \"max\", \"min\", \"sort\", \"groupby\", \"nlargest\", \"nsmallest\", \"accumulate\"):", "    if name in (\"sort\", \"groupby\", \"nlargest\", \"nsmallest\", \"accumulate\"):", "R16.18"),
+    Variant("map-judged-by-its-second-argument", "FIRE", "core", "    if name in calls_first_argument:\n        return node.args[:1]\n", "    if name in calls_first_argument:\n        return node.args[1:2]\n", "R16.18"),
     Variant("try-bodies-scanned-for-pointless-statements", "FIRE", "fixes", "        if isinstance(node, (ast.Try, getattr(ast, \"TryStar\", ast.Try))):\n            continue  # What a statement in a try raises is there to be caught: \"try: unicode\"\n\n", "", "R16.17"),
     Variant("try-test-written-with-a-template", "SILENT", "fixes", "        if isinstance(node, (ast.Try, getattr(ast, \"TryStar\", ast.Try))):\n            continue  # What a statement in a try raises is there to be caught: \"try: unicode\"\n", "        if not isinstance(node, (ast.Try, getattr(ast, \"TryStar\", ast.Try))):\n            pass\n        else:\n            continue\n", "R16.17"),
     Variant("jump-search-enters-inner-loop-bodies", "FIRE", "core", "            blocks = [node.orelse]\n", "            blocks = [node.body, node.orelse]\n", "R16.16"),
